@@ -282,12 +282,55 @@ def check_uris(rep, stats, max_eps):
         pass
 
 
+def check_builder_uris(rep, stats, length):
+  """The client builder's SetUri, called repeatedly on ONE builder (also again after it rejected a URI): every call with a foreign
+  scheme is rejected, every accepted call makes the builder use exactly the endpoints of that URI."""
+  from scales.core import Scales
+  iface = type('IfaceU', (object,), {'m': make_method('m', '()')})
+  uris = [('tcp://a:1,b:2', [('a', 1), ('b', 2)]), ('tcp://c:3', [('c', 3)]), ('http://a:1', None), ('a:1', None), ('zkk://z:1/p', None)]
+  for seq in itertools.product(range(len(uris)), repeat=length):
+    b = Scales.NewBuilder(iface)
+    current = None
+    for pos, ui in enumerate(seq):
+      uri, eps = uris[ui]
+      stats['evals'] += 1
+      stats['keys'].add(('builder-uri', seq[:pos + 1]))
+      try:
+        b.SetUri(uri)
+        raised = None
+      except Exception as e:  # noqa
+        raised = e
+      case = {'uris': [uris[i][0] for i in seq[:pos + 1]]}
+      if eps is None:
+        if raised is None:
+          rep.violation('C20.scheme-accepted', 'SetUri(%r) on a builder that had seen %r was accepted' % (uri, case['uris'][:-1]),
+                        {'scheme': uri.split(':')[0], 'builder': True}, {'case': case})
+          return
+      else:
+        current = eps
+        got = None
+        if raised is None:
+          prov = b._server_set_provider
+          got = [(s.service_endpoint.host, s.service_endpoint.port) for s in prov.GetServers()]
+        if raised is not None or got != eps:
+          rep.violation('C20.tcp-uri', 'SetUri(%r) on a builder that had seen %r: %r, endpoints %r' % (uri, case['uris'][:-1], raised, got),
+                        {'scheme': 'tcp', 'builder': True}, {'case': case})
+          return
+      if current is not None and raised is not None:
+        got = [(s.service_endpoint.host, s.service_endpoint.port) for s in b._server_set_provider.GetServers()]
+        if got != current:
+          rep.violation('C20.tcp-uri', 'after the rejected SetUri(%r) the builder uses endpoints %r, the last accepted URI listed %r'
+                        % (uri, got, current), {'scheme': 'tcp', 'builder': True}, {'case': case})
+          return
+
+
 def main(tier, seed):
   world.boot()
   rep = Report(PROP, tier, seed, 'exploration')
   stats = {'evals': 0, 'keys': set(), 'samples': []}
   check_proxies(rep, stats)
   check_same_name(rep, stats)
+  check_builder_uris(rep, stats, 3 if tier == 'quick' else 4)
   check_uris(rep, stats, 3 if tier == 'quick' else 4)
   rep.put('evaluations', stats['evals'])
   rep.put('distinct_nontrivial', len(stats['keys']))
